@@ -13,6 +13,8 @@ import (
 
 	"github.com/Flowpack/prunner"
 	"github.com/Flowpack/prunner/store"
+
+	"verif/internal/pfield"
 )
 
 // gateClosed reports whether the runner refuses schedule requests (no side effect either way).
@@ -40,12 +42,13 @@ func diffPersisted(p *store.PersistedJob, j *JobSnap) string {
 	}
 	for i := range p.Tasks {
 		a, b := p.Tasks[i], j.Tasks[i]
-		perr := ""
-		if a.Error != nil {
-			perr = *a.Error
-		}
-		if a.Name != b.Name || a.Status != b.Status || a.ExitCode != b.ExitCode || a.Errored != b.Errored || perr != b.Error || (a.Start == nil) != (b.Start == nil) || (a.End == nil) != (b.End == nil) {
-			return fmt.Sprintf("task %s: store status=%s exit=%d errored=%v, reported status=%s exit=%d errored=%v", a.Name, a.Status, a.ExitCode, a.Errored, b.Status, b.ExitCode, b.Errored)
+		// (less central fields by name: a persisted field that disappears must not stop the harness from
+		// compiling; whether its loss matters is decided by the restart oracle of C10)
+		perr := pfield.Str(a, "Error", b.Error)
+		exit := int16(pfield.Int(a, "ExitCode", int64(b.ExitCode)))
+		errored := pfield.Bool(a, "Errored", b.Errored)
+		if a.Name != b.Name || a.Status != b.Status || exit != b.ExitCode || errored != b.Errored || perr != b.Error || (a.Start == nil) != (b.Start == nil) || (a.End == nil) != (b.End == nil) {
+			return fmt.Sprintf("task %s: store status=%s exit=%d errored=%v, reported status=%s exit=%d errored=%v", a.Name, a.Status, exit, errored, b.Status, b.ExitCode, b.Errored)
 		}
 	}
 	return ""
